@@ -74,4 +74,16 @@ CHECKS = {
            "from source). Not decided: split equivalence for deeper trees."),
   "design_ref": "DESIGN.md §5 C18", "note": _NOTE,
   "technique": "static analysis: predicate ASTs (incl. dependency source) decided as formulas over a complete finite family of abstract expression-tree shapes; truth-table oracle; frozen-input effect check"},
+ "C19": {
+  "text": ("For every operation class discovered by interface: (PURE) execute and everything it reaches (helpers, model "
+           "methods, the dependency's Metrics.execute read from source) is evaluated as a formula on an abstract model "
+           "realising every relation kind and constraint class whose objects/containers are frozen - any store is a "
+           "finding; (STATE) two executions on one object leave exactly the result a fresh object computes for the "
+           "second model, repeated execution is idempotent; (GENATTR) with the random source replaced by recording "
+           "stubs, generation adds exactly one attribute (name, parent, value from the domain) to each targeted feature "
+           "lacking it, nothing else changes, randint/uniform get (min,max) in order and match the bound types, missing "
+           "domain/name are FlamaException. Not decided: distribution/seeds; effects on paths the abstract models do "
+           "not take."),
+  "design_ref": "DESIGN.md §5 C19", "note": _NOTE,
+  "technique": "static analysis: effect/typestate analysis by evaluating operation ASTs over frozen abstract models (store = finding), state-independence by double evaluation, recording stubs for the random source"},
 }
